@@ -35,6 +35,17 @@ def gen(rng, tier):
                 m[a] = rng.below(256)
             lines.append(pipeline.step_line(cid, st, mem=sorted(m.items()), fill=0x00, nsteps=40, sched=sched, inputs=[7, 8], io=io))
             meta[cid] = ("special", str(j))
+    # mode 0 with the stack on top of the interrupted address: the pushed bytes fall into the window the supplied bytes occupy
+    for j in range(8):
+        st = programs.start_state(rng, iff=1, im=0)
+        st["PC"] = rng.choice([0x8000, 0x0100, 0xFFFE])
+        st["SP"] = (st["PC"] + rng.choice([1, 2, 3, 4])) & 0xFFFF
+        data = rng.choice([[0xFF], [0xCD, 0x38, 0x00], [0xC5], [0xE5, 0x00]])
+        m = {(st["PC"] + i) & 0xFFFF: 0x3C for i in range(6)}
+        m.update({0x38: 0xFB, 0x39: 0xED, 0x3A: 0x4D})
+        cid = "o%d" % j
+        lines.append(pipeline.step_line(cid, st, mem=sorted(m.items()), fill=0x00, nsteps=6, sched=[(0, 1, data), (3, 1, data)], inputs=[1], io=1))
+        meta[cid] = ("mode0-stack-on-pc", str(data))
     return lines, meta
 
 def twin_lines(lines):
